@@ -93,6 +93,8 @@ def cross_check(ctx, conjs, tag, timeout_s=300):
                 txt = (r.stdout + r.stderr).strip()
                 if '(error' in txt:
                     out[name] = 'error: ' + txt[:200]
+                elif 'interrupted by timeout' in txt or txt.startswith('timeout') or txt.split()[:1] == ['unknown']:
+                    out[name] = 'timeout'
                 else:
                     out[name] = txt.split()[0] if txt else 'no answer'
             except subprocess.TimeoutExpired:
@@ -197,6 +199,7 @@ class Interp:
         self.global_writes = set()
         self.track_globals = False
         self.depth = 0
+        self.ret_sites = {}     # return statements of the entry function reached, by source position (vacuity guard)
         self.trace = False
         self.lenient = False
         self._base_ids = None
@@ -1491,6 +1494,9 @@ class Interp:
                         v = operand(fr, rs[0])
                     else:
                         v = Tup(operand(fr, r) for r in rs)
+                    if self.depth == 1:
+                        k = (fid, ins.get('pos', '?'))
+                        self.ret_sites[k] = self.ret_sites.get(k, 0) + 1
                     outcomes.append(Outcome(st, 'ret', v))
                     return
                 elif op == 'Alloc':
@@ -1942,10 +1948,13 @@ class Interp:
             if fid not in self.prog.funcs or 'blocks' not in self.prog.funcs[fid]:
                 continue
             self.lenient = True
+            saved = (self.unwind, self.unwind_for)
+            self.unwind, self.unwind_for = 1 << 20, {}     # initialisers run on concrete data: table-building loops are not bounded
             try:
                 outs = self.call(fid, [], st)
             finally:
                 self.lenient = False
+                self.unwind, self.unwind_for = saved
             if len(outs) != 1 or outs[0].kind != 'ret':
                 raise Unsupported('package init of %s did not run to completion: %r' % (p, [(o.kind, o.val) for o in outs]))
             st = outs[0].st
